@@ -55,110 +55,68 @@ def graphIx (s : String) : Option Nat :=
   | "g2" => some 2
   | _ => none
 
-structure St where
-  g0 : Cfg := {}
-  g1 : Cfg := {}
-  g2 : Cfg := {}
-
-def St.get (s : St) : Nat → Cfg
-  | 0 => s.g0
-  | 1 => s.g1
-  | _ => s.g2
-
-def St.set (s : St) (i : Nat) (c : Cfg) : St :=
-  match i with
-  | 0 => { s with g0 := c }
-  | 1 => { s with g1 := c }
-  | _ => { s with g2 := c }
-
-/-- model answer, spec answer, new state -/
-def finish {α : Type} (s : St) (g : Nat) (st : Step α) (f : α → String) (extra : Cfg → String)
-    (specRes : String) (specExtra : String) : St × String × String :=
-  let c' := match st.res with
-    | .panic => s.get g
-    | _ => st.cfg
-  (s.set g c', resStr f st.res ++ "|" ++ propsStr c' ++ extra c' ++ "|" ++ cfgStr c', specRes ++ "|wf" ++ specExtra)
-
-def unitStr : Unit → String := fun _ => "ok"
-
-def stepOp (s : St) (op : String) : St × String × String :=
-  let bad := (s, "bad-request", "-")
-  let noX : Cfg → String := fun _ => ""
+/-- operation text → `EditOp` -/
+def parseOp (op : String) : Option EditOp :=
   match Sx.parseAll op with
-  | some [.atom "new_block", .atom g] =>
-    match graphIx g with
-    | some g => finish s g (newBlock (s.get g)) (fun i => "ok:" ++ toString i) noX "*" ""
-    | none => bad
-  | some [.atom "uedge", .atom g, h, t] =>
-    match graphIx g, h.nat?, t.nat? with
-    | some g, some h, some t => finish s g (unconditionalEdge (s.get g) h t) unitStr noX "*" ""
-    | _, _, _ => bad
-  | some [.atom "cedge", .atom g, h, t, e] =>
-    match graphIx g, h.nat?, t.nat?, Fil.expr? e with
-    | some g, some h, some t, some e => finish s g (conditionalEdge (s.get g) h t e) unitStr noX "*" ""
-    | _, _, _, _ => bad
-  | some [.atom "entry", .atom g, i] =>
-    match graphIx g, i.nat? with
-    | some g, some i => finish s g (setEntry (s.get g) i) unitStr noX "*" ""
-    | _, _ => bad
-  | some [.atom "exit", .atom g, i] =>
-    match graphIx g, i.nat? with
-    | some g, some i => finish s g (setExit (s.get g) i) unitStr noX "*" ""
-    | _, _ => bad
-  | some [.atom "merge", .atom g] =>
-    match graphIx g with
-    | some g =>
-      let pre := s.get g
-      finish s g (merge pre) unitStr (fun c => " lang=" ++ digest (langK c K)) "ok" (" lang=" ++ digest (langK pre K))
-    | none => bad
-  | some [.atom "append", .atom g, .atom h] =>
-    match graphIx g, graphIx h with
-    | some g, some h =>
-      let pre := s.get g
-      let d := s.get h
-      let mustFail := (!pre.blocks.isEmpty && (pre.entry.isNone || pre.exit.isNone)) || d.entry.isNone || d.exit.isNone
-      let (specRes, specX) :=
-        if mustFail then ("err:other", "")
-        else
-          let ee := if pre.blocks.isEmpty then langEEK d K
-            else match langEEK pre K, langEEK d K with
-              | some a, some b => some (concatK K a b)
-              | _, _ => none
-          ("ok", " ee=" ++ digest ee)
-      let st := append pre d
-      let isOk := match st.res with | .ok _ => true | _ => false
-      finish s g st unitStr (fun c => if isOk then " ee=" ++ digest (langEEK c K) else "") specRes specX
-    | _, _ => bad
-  | some [.atom "insert", .atom g, .atom h] =>
-    match graphIx g, graphIx h with
-    | some g, some h =>
-      finish s g (insert (s.get g) (s.get h)) (fun (p : Nat × Nat) => "ok:" ++ toString p.1 ++ "," ++ toString p.2) noX "*" ""
-    | _, _ => bad
-  | some [.atom "op", .atom g, b, o] =>
-    match graphIx g, b.nat?, Fil.op? o with
-    | some g, some b, some o => finish s g (blockOp (s.get g) b o) unitStr noX "*" ""
-    | _, _, _ => bad
-  | some [.atom "bappend", .atom g, b, .atom h, j] =>
-    match graphIx g, b.nat?, graphIx h, j.nat? with
-    | some g, some b, some h, some j => finish s g (blockAppendOp (s.get g) b (s.get h) j) unitStr noX "*" ""
-    | _, _, _, _ => bad
-  | some [.atom "rmins", .atom g, b, i] =>
-    match graphIx g, b.nat?, i.nat? with
-    | some g, some b, some i => finish s g (removeInstruction (s.get g) b i) unitStr noX "*" ""
-    | _, _, _ => bad
-  | some [.atom "temp", .atom g, n] =>
-    match graphIx g, n.nat? with
-    | some g, some n =>
-      finish s g (temp (s.get g) n) (fun (x : Scalar) => "ok:" ++ x.name ++ ":" ++ toString x.bits) noX "*" ""
-    | _, _ => bad
-  | _ => bad
+  | some [.atom "new_block", .atom g] => do pure (.newBlock (← graphIx g))
+  | some [.atom "uedge", .atom g, h, t] => do pure (.uedge (← graphIx g) (← h.nat?) (← t.nat?))
+  | some [.atom "cedge", .atom g, h, t, e] => do pure (.cedge (← graphIx g) (← h.nat?) (← t.nat?) (← Fil.expr? e))
+  | some [.atom "entry", .atom g, i] => do pure (.entry (← graphIx g) (← i.nat?))
+  | some [.atom "exit", .atom g, i] => do pure (.exit (← graphIx g) (← i.nat?))
+  | some [.atom "merge", .atom g] => do pure (.merge (← graphIx g))
+  | some [.atom "append", .atom g, .atom h] => do pure (.append (← graphIx g) (← graphIx h))
+  | some [.atom "insert", .atom g, .atom h] => do pure (.insert (← graphIx g) (← graphIx h))
+  | some [.atom "op", .atom g, b, o] => do pure (.op (← graphIx g) (← b.nat?) (← Fil.op? o))
+  | some [.atom "bappend", .atom g, b, .atom h, j] => do pure (.bappend (← graphIx g) (← b.nat?) (← graphIx h) (← j.nat?))
+  | some [.atom "rmins", .atom g, b, i] => do pure (.rmins (← graphIx g) (← b.nat?) (← i.nat?))
+  | some [.atom "temp", .atom g, n] => do pure (.temp (← graphIx g) (← n.nat?))
+  | _ => none
+
+def outcomeStr : Outcome → String
+  | .unit => "ok"
+  | .index i => "ok:" ++ toString i
+  | .pair a b => "ok:" ++ toString a ++ "," ++ toString b
+  | .scalar x => "ok:" ++ x.name ++ ":" ++ toString x.bits
+
+/-- what the property demands of this call, from the graphs before it: (result or `*`, extra properties) -/
+def specOf (s : Graphs) : EditOp → String × String
+  | .merge g => ("ok", " lang=" ++ digest (langK (s g) K))
+  | .append g h =>
+    let pre := s g
+    let d := s h
+    let mustFail := (!pre.blocks.isEmpty && (pre.entry.isNone || pre.exit.isNone)) || d.entry.isNone || d.exit.isNone
+    if mustFail then ("err:other", "")
+    else
+      let ee := if pre.blocks.isEmpty then langEEK d K
+        else match langEEK pre K, langEEK d K with
+          | some a, some b => some (concatK K a b)
+          | _, _ => none
+      ("ok", " ee=" ++ digest ee)
+  | _ => ("*", "")
+
+/-- the extra properties printed after the call, from the graph after it -/
+def extraOf (o : EditOp) (res : Res Outcome) (c : Cfg) : String :=
+  match o, res with
+  | .merge _, _ => " lang=" ++ digest (langK c K)
+  | .append .., .ok _ => " ee=" ++ digest (langEEK c K)
+  | _, _ => ""
+
+/-- new graphs, model answer, spec answer -/
+def stepOp (s : Graphs) (op : String) : Graphs × String × String :=
+  match parseOp op with
+  | none => (s, "bad-request", "-")
+  | some o =>
+    let (s', res) := run s o
+    let c' := s' o.target
+    let (specRes, specX) := specOf s o
+    (s', resStr outcomeStr res ++ "|" ++ propsStr c' ++ extraOf o res c' ++ "|" ++ cfgStr c', specRes ++ "|wf" ++ specX)
 
 def handle (line : String) : String :=
   let ops := line.splitOn " ; "
-  let (_, ms, ss) := ops.foldl (fun (acc : St × List String × List String) op =>
+  let (_, ms, ss) := ops.foldl (fun (acc : Graphs × List String × List String) op =>
     let (s, ms, ss) := acc
     let (s', m, sp) := stepOp s op
-    (s', m :: ms, sp :: ss)) ({}, [], [])
+    (s', m :: ms, sp :: ss)) ((fun _ => CfgEdit.new), [], [])
   " ; ".intercalate ms.reverse ++ "\t" ++ " ; ".intercalate ss.reverse
 
 def main : IO Unit := driverLoop handle
